@@ -23,29 +23,34 @@ CHECKS = {
             'placement; every entry of Panel.calc_k0 compared with an independent strain-energy Hessian (tolerance 1e-9 vs '
             'measured noise 4e-13), plus symmetry/PSD/tiling/pre-load/rigid-body consequences',
             'trusts vlib/ref/panel.py + vlib/ref/clt.py; kernels are the pre-built extensions (no Cython available), '
-            'Python orchestration is live; m,n <= 8', '3 C02'),
+            'Python orchestration is live; series orders <= 8 against the quadrature reference (all four models, sub-intervals) and up to 30 against '
+            'the exact separable reference (plate, w-only plate, cylindrical panel, full width); one object re-used after its definition changes', '3 C02'),
     'C03': ('Hypothesis-generated panels/loads/states; differential oracle: Hessian of the pre-stress work with N given or '
             'N = A eps + B kappa of the state at the same Gauss points; metamorphic: superposition of unit loads, tiling, '
             'uniform-stress state == constant load, table-of-equal-laminates == uniform',
             'generated-input search over models x sub-intervals x placement x load triples (tension, shear, mixed) and, '
-            'for the state path, Ritz states x Gauss orders 2..64 x uniform/per-point laminate tables; every matrix entry compared',
+            'for the state path, Ritz states x Gauss orders 2..64 x uniform/per-point laminate tables (C / Fortran / transposed / strided memory '
+            'layouts); single, cancelling and generic load triples; series orders up to 30 against the exact separable reference; every matrix entry compared',
             'trusts vlib/ref/panel.py; comparisons are scaled by a cancellation-free bound of the stress resultants', '3 C03'),
     'C04': ('Hypothesis-generated panels; differential oracle: kinetic-energy Hessian; invariants: total mass of rigid '
             'translations, positive definiteness; metamorphic: frequency invariance under a move of the reference surface',
             'generated-input search over models x flags x sub-intervals x placement x offsets of both signs; every entry of '
             'calc_kM compared with the kinetic-energy Hessian; the coupling sign is decided by a package-only metamorphic '
-            'relation; the kernel defect R1 is matched by a signature predicate and everything else stays armed',
+            'relation; the kernel defect R1 is matched by a signature predicate and everything else stays armed; series orders up to 30 against the '
+            'exact separable reference; one object re-used after offset / density / length are edited one at a time; total mass of stiffened bays',
             'trusts vlib/ref/panel.py; sign convention taken from the laminate code (mid-plane at z=+offset)', '3 C04'),
     'C05': ('generated random symmetric pencils (seed-expanded) and package (k0,kG0) pairs; oracles: backward-error residual, '
             'dense Cholesky-reduced reference spectrum, sparse-vs-dense differential, load-scaling metamorphic relation',
             'generated-input search over sizes 5..400, null rows/columns, definite/rank-deficient/indefinite KG, k=1..25 and both '
             'solver paths; every returned pair is checked against (K + lambda KG) v = 0 and, under the stated precondition, '
-            'against the k smallest positive multipliers of an independent dense solution',
+            'against the k smallest positive multipliers of an independent dense solution; structured stiffness (spring chains with zero-sum columns); '
+            'tension-dominated panel loads through the legacy Panel.lb with up to 25 requested values; ConeCyl.lb',
             'trusts numpy/scipy dense eigen-solvers as reference; ARPACK start vectors are pinned (vlib/determinism.py)', '3 C05'),
     'C06': ('generated random SPD pencils with clustered spectra and package (k0,kM) pairs; oracles: residual, dense reference '
             'spectrum, sparse-vs-dense differential, mass-scaling relation, reduced-dof sub-problem',
             'generated-input search over sizes 6..400, null rows/columns, clusters closer than the old rounding granularity, '
-            'sort on/off, reduced_dof on/off, k=1..25, both paths, through analysis.freq and Panel.freq',
+            'sort on/off, reduced_dof on/off, k=1..25, both paths, through analysis.freq and Panel.freq; structured mass matrices with zero-sum '
+            'columns; stiffened bays; a Panel re-defined between two freq() calls; finding R6b (dense path, badly scaled K) matched by its signature',
             'trusts numpy/scipy dense eigen-solvers as reference; ARPACK start vectors are pinned', '3 C06'),
     'C07': ('Hypothesis-generated load sets and structures; metamorphic/virtual-work oracle against the package own field '
             'recovery; linear-algebra oracle (residual, dense reference, linearity) for the solvers',
@@ -64,14 +69,15 @@ CHECKS = {
             '(instrumented Problem object) and on the reported lists',
             'generated-input search over histories of converged / diverged / too-slow / iteration-limited steps with bisection '
             'and re-growth; every reported pair re-evaluated against absTOL, strict load order, snapshot immutability and '
-            'aliasing, stop condition (next increment < minInc), termination as a derived call-count bound plus a wall-clock '
-            'watchdog, linear problems solved with the linear solution; also Panel.static(NLgeom=True)',
+            'aliasing, stop condition (next increment < minInc), termination as a derived call-count bound plus a CPU-time '
+            'watchdog (never wall-clock), residuals with NaN components, problems in unit systems from 1e-12 to 1e6, linear problems solved with the linear solution; also Panel.static(NLgeom=True)',
             'user callables are pure; "equal to 1" read with the driver tolerance 1e-3; termination is a bounded-safety claim', '3 C09'),
     'C11': ('Hypothesis-generated amplitude vectors / point sets / thread counts; differential oracle: Ritz series evaluated with '
             'exact Bardell polynomials + Donnell relations; metamorphic: permutation, subset, thread-count invariance',
             'generated-input search over plate/cpanel/w-only panels, assemblies (groups, reordered) and stiffened bays (every 2-D '
             'stiffener region, mixed kinds); u,v,w,rotations, strains (linear and non-linear option), stresses with default and '
-            'supplied laminate matrices; conditioning-aware tolerance 1e-11 of sum|c||f||g|',
+            'supplied laminate matrices; conditioning-aware tolerance 1e-11 of sum|c||f||g|; points as 2-D arrays in C / Fortran / transposed / '
+            'mixed / strided layouts, amplitude vectors as strided views, matrix columns and lists',
             'trusts vlib/ref/bardell.py and vlib/ref/panel.py; true interleaving races are not controllable (thread counts 1..16 varied)',
             '3 C11'),
     'C12': ('Hypothesis-generated panel pairs / connection kinds / positions / placements; differential oracle: Hessian of the '
@@ -79,13 +85,15 @@ CHECKS = {
             'metamorphic laws for calc_kt_kr',
             'generated-input search over the five connection kinds, interface positions inside either panel, different sizes, '
             'series orders, flags, kt/kr and either ordering of p1/p2 in the global vector (kernel level and through '
-            'PanelAssembly.get_k0_conn); symmetry, PSD, linearity in kt/kr, exchange symmetry and moduli scaling of the constants',
+            'PanelAssembly.get_k0_conn); symmetry, PSD, linearity in kt/kr, exchange symmetry and moduli scaling of the constants, also on '
+            'panel objects whose laminates were re-defined (finding R12a: the assembly never recomputes its connection matrix)',
             'jump definitions are stated in ASSUMPTIONS and cross-checked by the energy identity against the package own fields', '3 C12'),
     'C13': ('Hypothesis-generated assemblies and stiffened bays; differential oracle built from stand-alone components (fresh '
             'Panel objects, bays carrying a single stiffener); metamorphic: cut skin == uncut skin; invariant: PSD contributions',
             'generated-input search over assemblies of 1..6 panels in any order with optional connections, and bays with 0..4 '
             'skin cuts and 0..3 stiffeners of the three kinds in any insertion order; size/ranges, k0/kG0/kM equal the sum of '
-            'components at their ranges; stiffener contributions symmetric PSD (two kernel/modelling findings matched by predicates)',
+            'components at their ranges, connection matrices from the independent interface-energy reference, state-based kG0(c), force vectors '
+            'incl. loads exactly on a skin cut; stiffener contributions symmetric PSD (two kernel/modelling findings matched by predicates)',
             'components are evaluated by the package itself on fresh objects; their own correctness is C02-C04/C12', '3 C13'),
     'C10': ('exhaustive enumeration of the finite table domains + Hypothesis-generated sub-intervals/maps/flags; oracle: '
             'exact rational Bardell polynomials; C sources parsed and evaluated in exact rational arithmetic',
@@ -97,36 +105,41 @@ CHECKS = {
     'C14': ('Hypothesis-generated panels; purely metamorphic oracles between equivalent descriptions produced by the package itself',
             'generated-input search over six relations: cone(0)==cylinder, cylinder(r->inf)->plate (1/r, 1/r^2 law), w-only == w-block, '
             'numeric(c=0) == analytic, x<->y exchange (matrices up to the dof permutation, eigenvalues through lb/freq), similarity '
-            'scaling (s, e, q)',
+            'scaling (s, e, q over unit systems: s 1e-3..1e3, e 1e-6..1e6, q 1e-12..1e3)',
             'no reference model: a defect shared by both descriptions is invisible here (covered by C02-C04)', '3 C14'),
     'C15': ('Hypothesis-generated refinements and specially orthotropic plates; invariant: Cauchy interlacing under hierarchical '
             'refinement; differential oracle: closed-form double-sine buckling loads and frequencies (with rotary inertia)',
             'generated-input search over all four models x flags x laminates x load triples x (m,n) increments for monotonicity of the six '
             'lowest multipliers/frequencies, and over aspect ratios 0.2..5, bending-stiffness ratios and compression ratios for the '
-            'bounds; convergence asserted once the series resolves the half-waves of the mode',
+            'bounds (plies of unequal thickness, objects re-used after in-place edits, the orthotropic switch on); convergence asserted once the '
+            'series resolves the half-waves of the mode',
             'closed forms use the reference laminate model for D; eigenvalues from dense solvers and from analysis.lb/freq', '3 C15'),
     'C16': ('Hypothesis-generated shells; oracles: Hessian of the surface integral of the package own linear strain field (central '
             'differences of ConeCyl.strain, Gauss x periodic trapezoid, Richardson in the section count for cones), kernel-level '
             'differential cone(0) vs cylinder, iso vs general model, algebraic laws of kG0 and of the edge-restraint matrix',
             'generated-input search over all 20 importable shell models x cylinders/cones x laminates x series orders x loads x edge '
-            'stiffnesses; kernel defects found are matched per (claim, model) by signature predicates and replayed from the corpus',
+            'stiffnesses incl. nearly cylindrical cones; every edge stiffness compared with k r Int S^T S dtheta of the model own field operator; '
+            'k0uu/k0uk against the full matrix for every prescribed-amplitude subset; kernel defects found are matched per (claim, model) by '
+            'signature predicates and replayed from the corpus',
             'the strain field itself is trusted for the energy oracle (it is what the statement prescribes); kernels are pre-built', '3 C16'),
     'C17': ('Hypothesis-generated states; package-only oracle: Richardson finite-difference Jacobian of calc_fint (exact for the cubic '
             'internal force on a fixed point set); invariants: symmetry, fint(0)=0, small-state limit, thread-count independence',
             'generated-input search over the 12 NL-capable shell models x cylinders/cones x laminates x states up to 3 thicknesses x '
-            'trapezoid/Simpson grids x 1..8 threads x imperfection on/off; the four models whose tangent is not the Jacobian are '
+            'trapezoid/Simpson grids x 1..8 threads x imperfection on/off x load fraction x prescribed edge displacement, also at the all-zero '
+            'state; the four models whose tangent is not the Jacobian are '
             'matched by per-model findings, the other eight agree to 1e-8 of the non-linear part',
             'difference quotients are limited by the rounding of k0*c with 1e8 edge penalties (stated floor)', '3 C17'),
     'C18': ('Hypothesis-generated shells and load sets; virtual-work oracle against the package own displacement field; dense '
             'deletion/insertion reference for the partition book-keeping; linear-algebra oracle for static()',
             'generated-input search over 16 static-capable models, cylinders and cones from every admissible pair of (r1,r2,H,L), point '
             'forces, axial load (uniform + harmonics), pressure, torque (force/rotation controlled), prescribed shortening, load factor, '
-            'all admissible prescribed-amplitude subsets',
+            'all admissible prescribed-amplitude subsets; objects whose point forces were edited in place; evaluation points in non-C layouts',
             'surface integrals by periodic trapezoid x Gauss quadrature; torque-as-point-force matched by a signature predicate', '3 C18'),
     'C19': ('Hypothesis-generated aerodynamic cases; differential oracle: bilinear forms of the piston-theory pressure law from w '
             'operators; metamorphic: flow-y == flow-x on the exchanged panel; dense non-Hermitian reference for Panel.freq',
             'generated-input search over flat / w-only / cylindrical panels, both flow directions, coefficients given directly or '
-            'through Mach number, restrained and unrestrained flow edges, placement, and stiffened bays',
+            'through Mach number (also as a sweep on one object), restrained and unrestrained flow edges, placement, pressure numbers 1e-14..1e3 '
+            'with the curvature part judged on its own scale, and stiffened bays whose coefficients are reset between calls',
             'gamma applies to curved panels only (statement); the damping coefficient derived inside calc_kA is not observable', '3 C19'),
     'C20': ('generated operation sequences (histories) interpreted on one shared object; model-based oracle: each answer must equal '
             'the first answer of a fresh twin object with the same definition; invariants: caller arrays unchanged, thread count irrelevant',
